@@ -53,3 +53,121 @@ func CompareAndSwapInt64(p *int64, o, n int64) bool {
 	vsched.Point("atomic.CompareAndSwapInt64")
 	return atomic.CompareAndSwapInt64(p, o, n)
 }
+
+// Typed atomics: every method is a scheduling point in front of the real operation.
+
+type Bool struct{ real atomic.Bool }
+
+func (b *Bool) Load() bool   { vsched.Point("atomic.Bool.Load"); return b.real.Load() }
+func (b *Bool) Store(v bool) { vsched.Point("atomic.Bool.Store"); b.real.Store(v) }
+func (b *Bool) Swap(v bool) bool {
+	vsched.Point("atomic.Bool.Swap")
+	return b.real.Swap(v)
+}
+func (b *Bool) CompareAndSwap(o, n bool) bool {
+	vsched.Point("atomic.Bool.CompareAndSwap")
+	return b.real.CompareAndSwap(o, n)
+}
+
+type Int32 struct{ real atomic.Int32 }
+
+func (x *Int32) Load() int32       { vsched.Point("atomic.Int32.Load"); return x.real.Load() }
+func (x *Int32) Store(v int32)     { vsched.Point("atomic.Int32.Store"); x.real.Store(v) }
+func (x *Int32) Add(d int32) int32 { vsched.Point("atomic.Int32.Add"); return x.real.Add(d) }
+func (x *Int32) Swap(v int32) int32 {
+	vsched.Point("atomic.Int32.Swap")
+	return x.real.Swap(v)
+}
+func (x *Int32) CompareAndSwap(o, n int32) bool {
+	vsched.Point("atomic.Int32.CompareAndSwap")
+	return x.real.CompareAndSwap(o, n)
+}
+
+type Int64 struct{ real atomic.Int64 }
+
+func (x *Int64) Load() int64       { vsched.Point("atomic.Int64.Load"); return x.real.Load() }
+func (x *Int64) Store(v int64)     { vsched.Point("atomic.Int64.Store"); x.real.Store(v) }
+func (x *Int64) Add(d int64) int64 { vsched.Point("atomic.Int64.Add"); return x.real.Add(d) }
+func (x *Int64) Swap(v int64) int64 {
+	vsched.Point("atomic.Int64.Swap")
+	return x.real.Swap(v)
+}
+func (x *Int64) CompareAndSwap(o, n int64) bool {
+	vsched.Point("atomic.Int64.CompareAndSwap")
+	return x.real.CompareAndSwap(o, n)
+}
+
+type Uint32 struct{ real atomic.Uint32 }
+
+func (x *Uint32) Load() uint32        { vsched.Point("atomic.Uint32.Load"); return x.real.Load() }
+func (x *Uint32) Store(v uint32)      { vsched.Point("atomic.Uint32.Store"); x.real.Store(v) }
+func (x *Uint32) Add(d uint32) uint32 { vsched.Point("atomic.Uint32.Add"); return x.real.Add(d) }
+func (x *Uint32) Swap(v uint32) uint32 {
+	vsched.Point("atomic.Uint32.Swap")
+	return x.real.Swap(v)
+}
+func (x *Uint32) CompareAndSwap(o, n uint32) bool {
+	vsched.Point("atomic.Uint32.CompareAndSwap")
+	return x.real.CompareAndSwap(o, n)
+}
+
+type Uint64 struct{ real atomic.Uint64 }
+
+func (x *Uint64) Load() uint64        { vsched.Point("atomic.Uint64.Load"); return x.real.Load() }
+func (x *Uint64) Store(v uint64)      { vsched.Point("atomic.Uint64.Store"); x.real.Store(v) }
+func (x *Uint64) Add(d uint64) uint64 { vsched.Point("atomic.Uint64.Add"); return x.real.Add(d) }
+func (x *Uint64) Swap(v uint64) uint64 {
+	vsched.Point("atomic.Uint64.Swap")
+	return x.real.Swap(v)
+}
+func (x *Uint64) CompareAndSwap(o, n uint64) bool {
+	vsched.Point("atomic.Uint64.CompareAndSwap")
+	return x.real.CompareAndSwap(o, n)
+}
+
+type Pointer[T any] struct{ real atomic.Pointer[T] }
+
+func (p *Pointer[T]) Load() *T   { vsched.Point("atomic.Pointer.Load"); return p.real.Load() }
+func (p *Pointer[T]) Store(v *T) { vsched.Point("atomic.Pointer.Store"); p.real.Store(v) }
+func (p *Pointer[T]) Swap(v *T) *T {
+	vsched.Point("atomic.Pointer.Swap")
+	return p.real.Swap(v)
+}
+func (p *Pointer[T]) CompareAndSwap(o, n *T) bool {
+	vsched.Point("atomic.Pointer.CompareAndSwap")
+	return p.real.CompareAndSwap(o, n)
+}
+
+func (v *Value) Swap(x any) any {
+	vsched.Point("atomic.Value.Swap")
+	return v.real.Swap(x)
+}
+func (v *Value) CompareAndSwap(o, n any) bool {
+	vsched.Point("atomic.Value.CompareAndSwap")
+	return v.real.CompareAndSwap(o, n)
+}
+
+func AddUint32(p *uint32, d uint32) uint32 { vsched.Point("atomic.AddUint32"); return atomic.AddUint32(p, d) }
+func LoadUint32(p *uint32) uint32          { vsched.Point("atomic.LoadUint32"); return atomic.LoadUint32(p) }
+func StoreUint32(p *uint32, d uint32)      { vsched.Point("atomic.StoreUint32"); atomic.StoreUint32(p, d) }
+func AddUint64(p *uint64, d uint64) uint64 { vsched.Point("atomic.AddUint64"); return atomic.AddUint64(p, d) }
+func LoadUint64(p *uint64) uint64          { vsched.Point("atomic.LoadUint64"); return atomic.LoadUint64(p) }
+func StoreUint64(p *uint64, d uint64)      { vsched.Point("atomic.StoreUint64"); atomic.StoreUint64(p, d) }
+func SwapInt32(p *int32, v int32) int32    { vsched.Point("atomic.SwapInt32"); return atomic.SwapInt32(p, v) }
+func SwapInt64(p *int64, v int64) int64    { vsched.Point("atomic.SwapInt64"); return atomic.SwapInt64(p, v) }
+func SwapUint32(p *uint32, v uint32) uint32 {
+	vsched.Point("atomic.SwapUint32")
+	return atomic.SwapUint32(p, v)
+}
+func SwapUint64(p *uint64, v uint64) uint64 {
+	vsched.Point("atomic.SwapUint64")
+	return atomic.SwapUint64(p, v)
+}
+func CompareAndSwapUint32(p *uint32, o, n uint32) bool {
+	vsched.Point("atomic.CompareAndSwapUint32")
+	return atomic.CompareAndSwapUint32(p, o, n)
+}
+func CompareAndSwapUint64(p *uint64, o, n uint64) bool {
+	vsched.Point("atomic.CompareAndSwapUint64")
+	return atomic.CompareAndSwapUint64(p, o, n)
+}
